@@ -38,7 +38,7 @@ inductive Res where
   | ok (kvs : List KV)
   | err
   | oob
-  deriving Repr
+  deriving Repr, DecidableEq
 
 /-- the `for index < totalLen` loop of `DecodeHeader`; `fuel` bounds the iterations (each consumes ≥ 4 bytes) -/
 def decodeLoop : Nat → Bytes → List KV → Res
